@@ -771,4 +771,64 @@ example : peakPower ([1, 3, 2] : List ℝ) = some 3 := by
     simp [argmax, argmaxGo, RealLike.lt]; norm_num
   simp [peakPower, this]
 
+/-! ## Start values and bounds handed to the optimiser -/
+
+/-- COMPOSITION with the routing: the filter contributes exactly as many fitted parameters as the
+    routing of `FixedDiodeModel.__call__` expects, so the parameter vector built by
+    `fit_power_spectrum` (`[f_c, D, *initial_values]`) is always routed without a `ValueError` -/
+theorem fit_parameter_vector_is_routable (fd al : Option ℝ) (rate : ℝ) :
+    ((Filt.fixed fd al).fittedParams rate).length = freeCount [fd, al] ∧
+    ∃ r, route [fd, al] (((Filt.fixed fd al).fittedParams rate).map (·.1)) = some r := by
+  cases fd <;> cases al <;> simp [Filt.fittedParams, diodeParams, freeCount, route, noneIdx]
+
+/-- the generating diode parameters of the property's box lie inside the bounds the optimiser is
+    given (`1 ≤ f_diode ≤ rate/2`, `0 ≤ α ≤ 1`), whichever of them are free -/
+theorem generating_parameters_within_bounds (fd al rate : ℝ) (h1 : 1 ≤ fd) (h2 : fd ≤ rate / 2)
+    (h3 : 0 ≤ al) (h4 : al ≤ 1) :
+    (Filt.diode.fittedParams rate).map (fun b => (b.2.1, b.2.2)) = [(1, rate / 2), (0, 1)] ∧
+    ((Filt.fixed none none).fittedParams rate).map (fun b => (b.2.1, b.2.2)) = [(1, rate / 2), (0, 1)] ∧
+    ((Filt.fixed (some fd) none).fittedParams rate).map (fun b => (b.2.1, b.2.2)) = [(0, 1)] ∧
+    ((Filt.fixed none (some al)).fittedParams rate).map (fun b => (b.2.1, b.2.2)) = [(1, rate / 2)] ∧
+    ((Filt.fixed (some fd) (some al)).fittedParams rate) = [] ∧
+    (1 ≤ fd ∧ fd ≤ rate / 2) ∧ (0 ≤ al ∧ al ≤ 1) := by
+  refine ⟨?_, ?_, ?_, ?_, ?_, ⟨h1, h2⟩, ⟨h3, h4⟩⟩ <;>
+    simp [Filt.fittedParams, diodeParams] <;> norm_num
+example : (1:ℝ) ≤ 14000 ∧ (14000:ℝ) ≤ 78125 / 2 ∧ (0:ℝ) ≤ 0.4 ∧ (0.4:ℝ) ≤ 1 := by norm_num
+
+/-- … and so does the swapped twin of `fit_twin_minimiser` (as soon as `f_c ≥ 1 Hz`): the bounds
+    do not remove the second global minimiser of the objective; which of the two the optimiser
+    reaches is decided by its start point (analytical `f_c`, `f_diode = 14 kHz`) — exploration -/
+theorem twin_within_bounds (fc fd al rate : ℝ) (h1 : 1 ≤ fc) (hord : fc < fd) (h2 : fd ≤ rate / 2)
+    (h3 : 0 ≤ al) (h4 : al ≤ 1) :
+    (1 ≤ fc ∧ fc ≤ rate / 2) ∧ (0 ≤ al * fc / fd ∧ al * fc / fd ≤ 1) := by
+  have hfd : 0 < fd := by linarith
+  refine ⟨⟨h1, by linarith⟩, by positivity, ?_⟩
+  rw [div_le_one hfd]
+  nlinarith
+example : (1:ℝ) ≤ 1000 ∧ (1000:ℝ) < 14000 ∧ (14000:ℝ) ≤ 78125 / 2 ∧ (0:ℝ) ≤ 0.4 ∧ (0.4:ℝ) ≤ 1 := by norm_num
+
+/-- FULL STRENGTH of `analytic_lorentzian_exact`: the determinant hypothesis is discharged — on a
+    noise-free Lorentzian `P_k = 1/(a₀ + b₀ f_k²)` sampled at (at least) two frequencies with
+    different squares the closed form returns exactly `(a₀, b₀)` -/
+theorem analytic_lorentzian_exact_of_two_frequencies (fs ps : List Rat) (a0 b0 : Rat)
+    (hP : List.Forall₂ (fun f P => a0 + b0 * f ^ 2 ≠ 0 ∧ P = 1 / (a0 + b0 * f ^ 2)) fs ps)
+    (i j : Nat) (hij : i < j) (hjf : j < fs.length) (hf : fs[i] ^ 2 ≠ fs[j] ^ 2) :
+    analyticalLorentzian fs ps = (a0, b0) := by
+  have hlen : fs.length = ps.length := hP.length_eq
+  have hjp : j < ps.length := by omega
+  have hne : ∀ k (hk : k < fs.length), ps[k]'(by omega) ≠ 0 := by
+    intro k hk
+    have hmem : (fs[k], ps[k]'(by omega)) ∈ fs.zip ps := by
+      rw [List.mem_iff_getElem]
+      exact ⟨k, by simp; omega, by simp⟩
+    have := (List.forall₂_iff_zip.mp hP).2 hmem
+    rw [this.2]
+    exact one_div_ne_zero this.1
+  exact analytic_lorentzian_exact fs ps a0 b0 hP
+    (anlDet_pos_of_two_frequencies fs ps i j hij hjf hjp (hne i (by omega)) (hne j hjf) hf).ne'
+example : analyticalLorentzian [0, 1, 2] [1, 1 / 2, 1 / 5] = (1, 1) :=
+  analytic_lorentzian_exact_of_two_frequencies _ _ 1 1
+    (.cons ⟨by norm_num, by norm_num⟩ (.cons ⟨by norm_num, by norm_num⟩
+      (.cons ⟨by norm_num, by norm_num⟩ .nil))) 0 1 (by decide) (by decide) (by norm_num)
+
 end Verif.C11
